@@ -1,15 +1,20 @@
 """C01 — automatic differentiation returns exact first and second derivatives."""
-import glob, json, os, re
+import glob, json, os, re, shutil
 import vlib
 
 TARGETS = ["Base/Corr.vo", "Base/Fl.vo", "Base/Num.vo", "C01/Model.vo", "C01/Corr.vo", "C01/ModelR.vo", "C01/CorrR.vo",
            "C01/Spec.vo", "C01/ProofsList.vo", "C01/ProofsComb.vo", "C01/ProofsCoef.vo", "C01/ProofsJet.vo",
            "C01/ProofsRefuted.vo", "C01/ProofsStore.vo", "C01/ProofsOps.vo", "C01/ProofsSound.vo", "C01/ProofsChain2.vo",
            "C01/ProofsProg.vo", "C01/ModelVariants.vo", "C01/ProofsAlias.vo", "C01/ProofsSpecial.vo",
-           "C01/ProofsRed.vo", "C01/ProofsSmooth.vo", "C01/ProofsDag.vo", "C01/Props.vo"]
-PROPS = ["C01/Props.v"]
-PARTIAL = ("Theorems are over the reals and about the hand-written register-file model coq/C01/Model.v (tied to /repo HEAD by the "
-           "bit-exact single-step replay). Proved: combinator algebra (all n, orders 0-2, every aliasing of receiver and operands; the "
+           "C01/ProofsRed.vo", "C01/ProofsSmooth.vo", "C01/ProofsDag.vo", "C01/Props.vo",
+           "C01/ModelOpsLang.vo", "C01/Ops_gen.vo", "C01/ProofsGen.vo", "C01/ProofsGenR.vo", "C01/PropsGen.vo"]
+PROPS = ["C01/Props.v", "C01/PropsGen.v"]
+PARTIAL = ("Theorems are over the reals and about the hand-written register-file model coq/C01/Model.v, tied to the source (a) by "
+           "translation: go2coq_c01 prints the expressions of all 72 combinator call sites and the bodies of the 28 composite methods "
+           "of scalar_real{64,32}_math{,_concrete}.go into coq/C01/Ops_gen.v on every run and PropsGen.v proves, for every carrier and "
+           "all arguments, that their denotation is the model's operation table / composite programs (predicates and the seven "
+           "vector/matrix loops are outside the translated grammar: hand-tied only, listed under translator.hand_tied_only), and (b) by the "
+           "bit-exact single-step replay. Proved: combinator algebra (all n, orders 0-2, every aliasing of receiver and operands; the "
            "eight Go combinators transliterated one by one in ModelVariants.v are the two shared loops, and for every copy the aliased "
            "call c = a, c = b, c = a = b equals the fresh-receiver call; the gradient-before-Hessian order is refuted on the model; a "
            "receiver-operand that AllocForTwo reallocates is covered when it is a constant: step_dyadic_any_receiver), coefficient "
@@ -46,6 +51,58 @@ def is_known(hit):
         if f.get("match", {}).get("site") == hit.get("site"):
             return f
     return None
+
+
+def translate(ctx):
+    """T1: regenerate coq/C01/Ops_gen.v from the scalar sources of vlib.REPO.  Returns a list of failures."""
+    tool, tlog = vlib.build_tool("go2coq_c01", "go2coq_c01")
+    if tool is None:
+        ctx.oblige(1, 0)
+        return [{"target": "go2coq_c01 build", "lemma": None, "errors": [tlog[-1500:]]}]
+    gen = os.path.join(ctx.dir, "Ops_gen.v")
+    rep = os.path.join(ctx.dir, "ops_gen_report.json")
+    rc, out = vlib.sh([tool, "-repo", vlib.REPO, "-out", gen, "-report", rep], timeout=120, env=vlib.go_env())
+    if not os.path.exists(gen) or not os.path.exists(rep):
+        ctx.oblige(1, 0)
+        return [{"target": "go2coq_c01 run", "lemma": None, "errors": [out[-1500:]]}]
+    report = json.load(open(rep))
+    ctx.cov["translator"] = report
+    ok = rc == 0 and bool(report.get("ok"))
+    ctx.oblige(1, 1 if ok else 0)
+    failures = [] if ok else [{"target": "go2coq_c01 (parse errors or no combinator call site found)", "lemma": None,
+                               "errors": [(report.get("parse_errors") or out)[-1500:]]}]
+    new = open(gen).read()
+    committed_path = os.path.join(vlib.ROOT, "coq", "C01", "Ops_gen.v")
+    committed = open(committed_path).read() if os.path.exists(committed_path) else ""
+    ctx.cov["ops_gen_changed"] = new != committed
+    if new != committed:
+        # which methods read differently now: the hunt is aimed at them
+        def blocks(txt):
+            return set(b.strip() for b in re.split(r"(?m)^  (?=mkEntry|mkBody|mkUntied)", txt))
+        changed = sorted(set(re.findall(r'^mk\w+ "\w+" "(\w+)"', b)[0] for b in blocks(new) ^ blocks(committed)
+                             if re.match(r'mk\w+ "\w+" "(\w+)"', b)))
+        ctx.cov["ops_gen_changed_methods"] = changed
+        if os.path.abspath(vlib.REPO) == "/repo":
+            open(committed_path, "w").write(new)
+            ctx.log("Ops_gen.v regenerated from %s differs from the previous one (%s): proofs are re-checked against it"
+                    % (vlib.REPO, ", ".join(changed)))
+        else:
+            # redirected run: never touch the shared tree.  Private copy of Base + C01 (compiled files included,
+            # timestamps kept, so that only Ops_gen.v and what depends on it are rebuilt).
+            root = os.path.join(ctx.dir, "coq")
+            for d in ("Base", "C01"):
+                os.makedirs(os.path.join(root, d), exist_ok=True)
+                for f in glob.glob(os.path.join(vlib.ROOT, "coq", d, "*")) + glob.glob(os.path.join(vlib.ROOT, "coq", d, ".*.aux")):
+                    stem = os.path.basename(f).lstrip(".").split(".")[0]
+                    if stem in ("Ops_gen", "ProofsGen", "ProofsGenR", "PropsGen") and not f.endswith(".v"):
+                        continue   # compiled from the committed Ops_gen.v: must be rebuilt
+                    if os.path.isfile(f):
+                        shutil.copy2(f, os.path.join(root, d, os.path.basename(f)))
+            open(os.path.join(root, "C01", "Ops_gen.v"), "w").write(new)
+            vlib.COQ = root
+            ctx.log("Ops_gen.v regenerated from %s differs (%s): proofs re-checked in private tree %s"
+                    % (vlib.REPO, ", ".join(changed), root))
+    return failures
 
 
 def corr(ctx, binary, n):
@@ -153,10 +210,14 @@ def run(ctx):
         "libm / special-function results enter the bit-exact replay as logged oracle values; that math.X is the real function X is checked by the interval certificates for the elementary functions only (special functions: property C13)",
         "axioms: see 'print_assumptions' (Reals, classical logic and functional extensionality via Coquelicot)"]
     ctx.cov["partial"] = PARTIAL
+    tfail = translate(ctx)
     ok, failures = vlib.proof_stage(ctx, TARGETS, PROPS)
+    failures = tfail + failures
+    ok = ok and not tfail
     thms = vlib.theorem_names(os.path.join(vlib.COQ, "C01/Props.v"))
+    gthms = vlib.theorem_names(os.path.join(vlib.COQ, "C01/PropsGen.v"))
     if ok and ctx.tier == "thorough":
-        ctx.cov["print_assumptions"] = vlib.print_assumptions("C01", [("C01.Props", thms)], ctx.dir)
+        ctx.cov["print_assumptions"] = vlib.print_assumptions("C01", [("C01.Props", thms), ("C01.PropsGen", gthms)], ctx.dir)
     binary, blog = vlib.build_harness("c01")
     if binary is None:
         ctx.violation({"obligation": "build of harness/c01 against the library", "log": blog[-3000:]}, False,
@@ -216,8 +277,9 @@ def replay(ctx, path):
         return 2
     if "case" not in rp and "hunt" not in rp:
         print("replay names a broken obligation, not an input: %s" % rp.get("obligation"))
+        tfail = translate(ctx)
         ok, failures = vlib.proof_stage(ctx, TARGETS, PROPS)
-        return 0 if ok else 1
+        return 0 if (ok and not tfail) else 1
     vlib.sh([binary, "--replay", path, "--out", ctx.dir], env=vlib.go_env())
     res = json.load(open(os.path.join(ctx.dir, "replay_result.json")))
     fail = False
